@@ -37,6 +37,7 @@ func genCtx(seed uint64, tier string) *Scenario {
 	// focus runs: long division / multiplication under the context with
 	// constructed operands and history-laden receivers
 	focus := r.chance(0.1)
+	mulFocus := false
 	if focus {
 		dn := r.rangeI(2, 24)
 		if sc.Knobs == [4]int{} && r.chance(0.4) {
@@ -53,6 +54,13 @@ func genCtx(seed uint64, tier string) *Scenario {
 		}
 		mk := func(w []uint64) VarSpec {
 			return VarSpec{Form: 1, Words: w, Exp: int32(r.rangeI(-20, 20)), Prec: uint32(len(w) * wordDigits), Mode: uint8(r.intn(6)), Neg: r.chance(0.3)}
+		}
+		mulFocus = r.chance(0.35)
+		if mulFocus {
+			// factors made of round words / small boundary words; full-length products
+			u = r.genWords(dn, r.pick(6, 6, 7))
+			v = r.genWords(r.rangeI(2, 2*dn), r.pick(6, 6, 7))
+			dm = len(u) + len(v)
 		}
 		sc.Vars[0], sc.Vars[1] = mk(u), mk(v)
 		sc.Ctx.Prec = uint((dm + r.rangeI(0, 2)) * wordDigits)
@@ -135,6 +143,13 @@ func genCtx(seed uint64, tier string) *Scenario {
 			op = Op{ID: i, Name: r.pickS("c.Quo", "c.Quo", "c.Quo", "c.Mul", "c.FMA"), Z: r.rangeI(2, nv-1), A: []int{0, 1}}
 			if op.Name == "c.FMA" {
 				op.A = []int{0, 1, 1}
+			}
+			if mulFocus {
+				op.Name = r.pickS("c.Mul", "c.Mul", "c.FMA")
+				op.A = [][]int{{0, 1}, {0, 0}, {1, 1}, {1, 0}}[r.intn(4)]
+				if op.Name == "c.FMA" {
+					op.A = append(op.A, r.intn(2)) // (never the receiver: the property's precondition)
+				}
 			}
 		}
 		if sqrtFocus && nv > 2 {
